@@ -130,4 +130,26 @@ Theorem C11_fits_at_narrow_limit_not_at_wider_F30 :
   all_within 19 (f30_run 19) = false /\ penalty_of (f30_run 19) 3 = Some 2097167.
 Proof. exact fits_at_narrow_limit_not_at_wider_F30. Qed.
 
+(* the best-first search is not optimal with respect to the over-length penalty (finding F30 on the model): at limit 19 it returns a
+   solution with two tokens beyond the limit, without hitting the iteration limit, although the solution it returns at limit 18 is
+   admissible, respects every invariant and fits within 19 - the dearer alternative is pruned by best penalty per token before the
+   closers are measured *)
+From PasfmtVerif Require Import Model.WrapContexts Model.WrapSearch Model.WrapFormat Proofs.WrapSearchProofs Proofs.WrapWidthFree Proofs.WrapSimProofs Proofs.WrapUnconstrainedProofs Proofs.WrapWidthIndependence Proofs.WrapOptimalityProofs.
+Theorem C11_best_first_not_optimal_F30 :
+  exists (lv : lview) (s19 : solution) (st19 : sst) (s18 : solution) 
+  (st18 : sst),
+    nth_error f30_lvs 3 = Some lv /\
+    solve (f30_W 19) f30_lvs (main_fuel (f30_W 19)) 8 sst_init lv (2, 0) FD_Break =
+    (st19, Some s19) /\
+    1048576 <= sol_pen s19 /\
+    (forall (l : nat) (n : N), ~ In (Ev_S l (WS_limit n)) (ss_log st19)) /\
+    solve (f30_W 18) f30_lvs (main_fuel (f30_W 18)) 8 sst_init lv (2, 0) FD_Break =
+    (st18, Some s18) /\
+    cont_within 19 s18 = true /\
+    match lv_recs lv with
+    | [] => True
+    | r :: _ => sol_ok lv (first_dec FD_Break (tr_inv r)) s18
+    end.
+Proof. exact optimality_refuted. Qed.
+
 
